@@ -87,6 +87,9 @@ func (ft *FakeTarget) serveEcho(rw http.ResponseWriter, r *http.Request) {
 		h.Set("Content-Type", "text/event-stream")
 	case "loc":
 		h.Set("Location", "http://elsewhere.test/x?y=1")
+	case "early":
+		h.Set("Link", "</style.css>; rel=preload")
+		rw.WriteHeader(http.StatusEarlyHints)
 	}
 	if flavour == "die" || flavour == "diemid" {
 		hj, ok := rw.(http.Hijacker)
@@ -180,7 +183,11 @@ func (w *World) rawDo(rq rawReq) rawResp {
 	go func() {
 		conn.Write(b.Bytes())
 	}()
-	resp, err := http.ReadResponse(bufio.NewReader(conn), &http.Request{Method: rq.method})
+	br := bufio.NewReader(conn)
+	resp, err := http.ReadResponse(br, &http.Request{Method: rq.method})
+	for err == nil && resp.StatusCode >= 100 && resp.StatusCode < 200 && resp.StatusCode != 101 {
+		resp, err = http.ReadResponse(br, &http.Request{Method: rq.method}) // informational responses precede the final one
+	}
 	if err != nil {
 		return rawResp{err: err.Error()}
 	}
